@@ -255,12 +255,81 @@ func (c *Ctx) constructorParameters(rule string, prefixes ...string) {
 						if !used {
 							c.violate(rule, rel+"."+fd.Name.Name, "parameter "+nm.Name, nm.Pos(), fd.Name.Name+" does not use its parameter "+nm.Name+": the object it returns has the default there, whatever the caller passes")
 						}
+						// ... and reaches it as given: a numeric parameter is handed on, stored or
+						// returned verbatim, not through arithmetic, a comparison, min/max or a
+						// conversion (a constructor that "normalises" the periods it is given
+						// builds another configuration than the one documented for its arguments).
+						if b, isBasic := obj.Type().Underlying().(*types.Basic); !isBasic || b.Info()&types.IsNumeric == 0 {
+							continue
+						}
+						if why, derived := derivedParameters[rel+"."+fd.Name.Name+"."+nm.Name]; derived {
+							_ = why
+							continue
+						}
+						var stack []ast.Node
+						ast.Inspect(fd.Body, func(m ast.Node) bool {
+							if m == nil {
+								stack = stack[:len(stack)-1]
+								return true
+							}
+							stack = append(stack, m)
+							id, ok := m.(*ast.Ident)
+							if !ok || info.Uses[id] != obj || len(stack) < 2 {
+								return true
+							}
+							how := ""
+							switch x := stack[len(stack)-2].(type) {
+							case *ast.BinaryExpr:
+								how = "the expression " + short(exprString(x), 40)
+							case *ast.UnaryExpr:
+								how = "the expression " + short(exprString(x), 40)
+							case *ast.IncDecStmt:
+								how = "an increment"
+							case *ast.AssignStmt:
+								for _, l := range x.Lhs {
+									if l == ast.Expr(id) {
+										how = "an assignment to the parameter"
+									}
+								}
+							case *ast.CallExpr:
+								if x.Fun != ast.Expr(id) {
+									switch fo := info.Uses[calleeIdent(x.Fun)].(type) {
+									case *types.Builtin:
+										how = fo.Name() + "(…)"
+									case *types.TypeName:
+										how = "a conversion to " + fo.Name()
+									}
+								}
+							}
+							run.Oblige(how == "")
+							if how != "" {
+								c.violate(rule, rel+"."+fd.Name.Name, "parameter "+nm.Name+" altered", id.Pos(), fd.Name.Name+" passes its parameter "+nm.Name+" through "+how+": the object it builds is configured with another value than the one the caller gave and the documentation describes")
+							}
+							return true
+						})
 					}
 				}
 			}
 		}
 	}
 	run.Count("constructor_parameters", n)
+}
+
+// derivedParameters: constructors whose documentation derives sub-periods from the parameter.
+var derivedParameters = map[string]string{
+	"trend.NewHmaWithPeriod.period": "HMA = WMA(2*WMA(period/2) - WMA(period), sqrt(period)): the halves and the root are the documented sub-periods (decided by formula/derived-period)",
+}
+
+func calleeIdent(e ast.Expr) *ast.Ident {
+	switch x := ast.Unparen(e).(type) {
+	case *ast.Ident:
+		return x
+	case *ast.SelectorExpr:
+		return x.Sel
+	case *ast.IndexExpr:
+		return calleeIdent(x.X)
+	}
+	return nil
 }
 
 var statedDefault = regexp.MustCompile(`\bof (-?[0-9]+(?:\.[0-9]+)?)\s*(%?)\.?\s*$`)
